@@ -81,3 +81,12 @@ def base_normal(r):
     n = np.cross(p1 - p0, p2 - p0)
     ln = float(np.linalg.norm(n))
     return n / ln if ln else n
+
+
+def res_key(r):
+    """the order of residues the properties speak of: chain, number, insertion code (blank when absent)"""
+    return (r.chain, r.number, r.icode or " ")
+
+
+def res_lt(a, b):
+    return res_key(a) < res_key(b)
